@@ -328,7 +328,7 @@ ORD_CODE = {"rlx": 0, "acq": 1, "rel": 2, "acqrel": 3, "sc": 4}
 def sequential_events(paths, c):
     """Sequential reading of a template from count `c`: the atomic events the compiled operation must
     perform when nothing else touches the counter."""
-    from z3 import BitVecVal, substitute, simplify, And, is_true, BoolVal
+    from z3 import BitVecVal, substitute, simplify, And, is_true, BoolVal, Solver, sat
     hits = []
     for p in paths:
         m, sub, evs = c, [], []
@@ -336,24 +336,33 @@ def sequential_events(paths, c):
             k = e["kind"]
             if k == "R":
                 sub.append((e["rval"], BitVecVal(m, 64)))
-                evs.append((3, ORD_CODE[e["ord"]], 0))
+                evs.append((6 if e.get("op") == "cas-fail" else 3, ORD_CODE[e["ord"]], 0))
             elif k == "RMW":
                 sub.append((e["rval"], BitVecVal(m, 64)))
-                nv = simplify(substitute(e["wval"], *sub)).as_long()
+                w = e["wval"]
+                nv = w if isinstance(w, int) else simplify(substitute(w, *sub)).as_long()
                 if e["op"] == "fetch_add":
                     evs.append((1, ORD_CODE[e["ord"]], (nv - m) % (1 << 64)))
-                else:
+                elif e["op"] == "fetch_sub":
                     evs.append((2, ORD_CODE[e["ord"]], (m - nv) % (1 << 64)))
+                elif e["op"] == "cas":
+                    evs.append((5, ORD_CODE[e["ord"]], nv))
+                else:
+                    raise RuntimeError(f"atomic {e['op']} in a template: not covered by the recording stubs")
                 m = nv
             elif k == "W":
                 raise RuntimeError("plain atomic store in a template: not covered by the recording stubs")
             elif k == "F":
                 evs.append((4, ORD_CODE[e["ord"]], 0))
         pc = simplify(substitute(And(*p["pc"]), *sub)) if p["pc"] else BoolVal(True)
-        if is_true(pc):
+        # the only variables left after substituting the values read are per-instance choices (which of
+        # the two outcomes of a compare-exchange happened): the path applies iff some choice allows it
+        sol = Solver(); sol.add(pc)
+        if is_true(pc) or sol.check() == sat:
             hits.append(evs)
     if len(hits) != 1:
-        raise RuntimeError(f"template is not deterministic from count {c}: {len(hits)} paths apply")
+        raise RuntimeError(f"template is not deterministic from count {c}: {len(hits)} paths apply"
+                           + (" (a weak compare-exchange may fail spuriously)" if len(hits) > 1 else ""))
     return hits[0]
 
 
